@@ -4,7 +4,11 @@ import Bng.Model.Teardown
 
   Theorems over the model of pkg/pppoe/teardown.go (SessionTeardown + the SessionManager/IPPool parts it
   uses), for ALL sequences of session creations and terminations by any path (client PADT, TerminateSession
-  on a held pointer, TerminateByID/ByMAC/ByUsername/All), including repeated terminations of one session.
+  on a held pointer, TerminateByID/ByMAC/ByUsername/All), including repeated terminations of one session, two
+  TerminateSession calls at once (`tpark`/`tresume`) and an eBPF-map callback that fails (`fault`): the cleanup goes on,
+  everything else is released exactly once, but the session's fast-path entry stays for ever — the recorded finding
+  KF-pppoe-teardown-ebpf-noretry (`fastpath_entry_removed_partial`, `failed_removal_never_retried`,
+  `ebpf_noretry_witness`).
 -/
 namespace Bng.Spec.C16Teardown
 open Bng Bng.Teardown AMap
@@ -14,9 +18,9 @@ structure Inv (s : TD) : Prop where
   /-- a session that was not torn down has had no Accounting-Stop and no map removal -/
   fresh : ∀ n o, AMap.lookup s.objs n = some o → o.tornDown = false →
       count s.stops n = 0 ∧ count s.ebpf n = 0
-  /-- a torn-down session was cleaned up exactly once and holds nothing -/
+  /-- a torn-down session was cleaned up exactly once (ONE call of the eBPF-map callback, successful or not) and holds nothing -/
   done : ∀ n o, AMap.lookup s.objs n = some o → o.tornDown = true →
-      count s.ebpf n = 1 ∧ count s.stops n = (if s.radius && o.authed then 1 else 0) ∧
+      count s.ebpf n + count s.efail n = 1 ∧ count s.stops n = (if s.radius && o.authed then 1 else 0) ∧
       n ∉ s.held ∧ ∀ id, AMap.lookup s.live id ≠ some n
   /-- names never used have no trace anywhere -/
   unused : ∀ n, AMap.lookup s.objs n = none →
@@ -25,6 +29,12 @@ structure Inv (s : TD) : Prop where
   tbl : ∀ id n, AMap.lookup s.live id = some n → ∃ o, AMap.lookup s.objs n = some o ∧ o.id = id
   /-- only sessions that were given an address have a pool entry -/
   heldIp : ∀ n, n ∈ s.held → ∃ o, AMap.lookup s.objs n = some o ∧ o.hasIp = true
+  /-- a session that was not torn down has its fast-path entry, and the callback was never called for it -/
+  freshFp : ∀ n o, AMap.lookup s.objs n = some o → o.tornDown = false → count s.efail n = 0 ∧ n ∈ s.fp
+  /-- the fast-path entry of a torn-down session is gone iff its one removal succeeded -/
+  doneFp : ∀ n o, AMap.lookup s.objs n = some o → o.tornDown = true →
+      (count s.efail n = 0 → n ∉ s.fp) ∧ (count s.efail n = 1 → n ∈ s.fp)
+  unusedFp : ∀ n, AMap.lookup s.objs n = none → count s.efail n = 0 ∧ n ∉ s.fp
 
 theorem count_bump (m : AMap Nat Nat) (k k' : Nat) :
     count (bump m k) k' = if k' = k then count m k + 1 else count m k' := by
@@ -35,7 +45,7 @@ theorem count_bump (m : AMap Nat Nat) (k k' : Nat) :
   · simp [e]
 
 theorem inv_init (r : Bool) : Inv (init r) := by
-  refine ⟨?_, ?_, ?_, ?_, ?_⟩ <;> intros <;> simp_all [init, count]
+  refine ⟨?_, ?_, ?_, ?_, ?_, ?_, ?_, ?_⟩ <;> intros <;> simp_all [init, count]
 
 theorem removeSession_objs (s : TD) (id : Nat) : (removeSession s id).objs = s.objs := by
   unfold removeSession; split <;> rfl
@@ -46,6 +56,12 @@ theorem removeSession_ebpf (s : TD) (id : Nat) : (removeSession s id).ebpf = s.e
 theorem removeSession_held (s : TD) (id : Nat) : (removeSession s id).held = s.held := by
   unfold removeSession; split <;> rfl
 theorem removeSession_radius (s : TD) (id : Nat) : (removeSession s id).radius = s.radius := by
+  unfold removeSession; split <;> rfl
+theorem removeSession_efail (s : TD) (id : Nat) : (removeSession s id).efail = s.efail := by
+  unfold removeSession; split <;> rfl
+theorem removeSession_fp (s : TD) (id : Nat) : (removeSession s id).fp = s.fp := by
+  unfold removeSession; split <;> rfl
+theorem removeSession_fault (s : TD) (id : Nat) : (removeSession s id).fault = s.fault := by
   unfold removeSession; split <;> rfl
 theorem removeSession_live (s : TD) (id id' : Nat) :
     AMap.lookup (removeSession s id).live id' = if id' = id then none else AMap.lookup s.live id' := by
@@ -62,7 +78,8 @@ theorem inv_mk {s : TD} (hI : Inv s) (n m : Nat) (a i : Bool) : Inv (mk s n m a 
     have hnone : AMap.lookup s.objs n = none := by
       cases e : AMap.lookup s.objs n <;> simp [e] at hn ⊢
     obtain ⟨u1, u2, u3, u4⟩ := hI.unused n hnone
-    refine ⟨?_, ?_, ?_, ?_, ?_⟩
+    obtain ⟨u5, u6⟩ := hI.unusedFp n hnone
+    refine ⟨?_, ?_, ?_, ?_, ?_, ?_, ?_, ?_⟩
     · intro n' o h ht
       simp only [lookup_insert] at h
       by_cases e : n' = n
@@ -123,6 +140,29 @@ theorem inv_mk {s : TD} (hI : Inv s) (n m : Nat) (a i : Bool) : Inv (mk s n m a 
           · exact absurd h e
           · exact h
         · exact hm
+    · intro n' o h ht
+      simp only [lookup_insert] at h
+      by_cases e : n' = n
+      · subst e; exact ⟨u5, List.mem_cons_self⟩
+      · simp only [e, if_false] at h
+        obtain ⟨g1, g2⟩ := hI.freshFp n' o h ht
+        exact ⟨g1, List.mem_cons_of_mem _ g2⟩
+    · intro n' o h ht
+      simp only [lookup_insert] at h
+      by_cases e : n' = n
+      · subst e; simp only [if_true, Option.some.injEq] at h; subst h; simp at ht
+      · simp only [e, if_false] at h
+        obtain ⟨g1, g2⟩ := hI.doneFp n' o h ht
+        refine ⟨fun h0 => ?_, fun h1 => List.mem_cons_of_mem _ (g2 h1)⟩
+        simp only [List.mem_cons, not_or]; exact ⟨e, g1 h0⟩
+    · intro n' h
+      simp only [lookup_insert] at h
+      by_cases e : n' = n
+      · simp [e] at h
+      · simp only [e, if_false] at h
+        obtain ⟨g1, g2⟩ := hI.unusedFp n' h
+        refine ⟨g1, ?_⟩
+        simp only [List.mem_cons, not_or]; exact ⟨e, g2⟩
 
 theorem inv_cleanup {s : TD} (hI : Inv s) (n : Nat) : Inv (cleanup s n) := by
   unfold cleanup
@@ -134,7 +174,10 @@ theorem inv_cleanup {s : TD} (hI : Inv s) (n : Nat) : Inv (cleanup s n) := by
     · rename_i ht
       have ht' : o.tornDown = false := by simpa using ht
       obtain ⟨f1, f2⟩ := hI.fresh n o ho ht'
-      refine ⟨?_, ?_, ?_, ?_, ?_⟩
+      obtain ⟨f3, f4⟩ := hI.freshFp n o ho ht'
+      -- whether the eBPF-map callback works this time
+      generalize (s.fault == Fault.off) = ok
+      refine ⟨?_, ?_, ?_, ?_, ?_, ?_, ?_, ?_⟩
       · intro n' o' h hto
         simp only [removeSession_objs, removeSession_stops, removeSession_ebpf, lookup_insert] at h ⊢
         by_cases e : n' = n
@@ -145,15 +188,19 @@ theorem inv_cleanup {s : TD} (hI : Inv s) (n : Nat) : Inv (cleanup s n) := by
           · split
             · rw [count_bump]; simp [e, g1]
             · exact g1
-          · rw [count_bump]; simp [e, g2]
+          · split
+            · rw [count_bump]; simp [e, g2]
+            · exact g2
       · intro n' o' h hto
-        simp only [removeSession_objs, removeSession_stops, removeSession_ebpf, removeSession_held,
+        simp only [removeSession_objs, removeSession_stops, removeSession_ebpf, removeSession_efail, removeSession_held,
           removeSession_radius, lookup_insert] at h ⊢
         by_cases e : n' = n
         · subst e
           simp only [if_true, Option.some.injEq] at h; subst h
           refine ⟨?_, ?_, ?_, ?_⟩
-          · rw [count_bump]; simp [f2]
+          · cases ok
+            · simp only [Bool.false_eq_true, if_false]; rw [count_bump]; simp [f2, f3]
+            · simp only [if_true]; rw [count_bump]; simp [f2, f3]
           · by_cases hr : (s.radius && o.authed) = true
             · simp only [hr, if_true]; rw [count_bump]; simp [f1]
             · simp only [hr]; simp [f1]
@@ -175,7 +222,9 @@ theorem inv_cleanup {s : TD} (hI : Inv s) (n : Nat) : Inv (cleanup s n) := by
         · simp only [e, if_false] at h
           obtain ⟨d1, d2, d3, d4⟩ := hI.done n' o' h hto
           refine ⟨?_, ?_, ?_, ?_⟩
-          · rw [count_bump]; simp [e, d1]
+          · cases ok
+            · simp only [Bool.false_eq_true, if_false]; rw [count_bump]; simp [e, d1]
+            · simp only [if_true]; rw [count_bump]; simp [e, d1]
           · split
             · rw [count_bump]; simp [e, d2]
             · exact d2
@@ -198,7 +247,9 @@ theorem inv_cleanup {s : TD} (hI : Inv s) (n : Nat) : Inv (cleanup s n) := by
           · split
             · rw [count_bump]; simp [e, a1]
             · exact a1
-          · rw [count_bump]; simp [e, a2]
+          · split
+            · rw [count_bump]; simp [e, a2]
+            · exact a2
           · split
             · intro hm; exact a3 (List.mem_filter.mp hm).1
             · exact a3
@@ -230,12 +281,51 @@ theorem inv_cleanup {s : TD} (hI : Inv s) (n : Nat) : Inv (cleanup s n) := by
           rw [ho] at ho2; simp only [Option.some.injEq] at ho2; subst ho2
           exact ⟨{ o with tornDown := true }, by simp, hip2⟩
         · simp only [e, if_false]; exact ⟨o2, ho2, hip2⟩
+      · -- freshFp: another session that is not torn down keeps its entry
+        intro n' o' h hto
+        simp only [removeSession_objs, removeSession_efail, removeSession_fp, lookup_insert] at h ⊢
+        by_cases e : n' = n
+        · subst e; simp only [if_true, Option.some.injEq] at h; subst h; simp at hto
+        · simp only [e, if_false] at h
+          obtain ⟨g1, g2⟩ := hI.freshFp n' o' h hto
+          cases ok
+          · simp only [Bool.false_eq_true, if_false]; rw [count_bump]; simp [e, g1, g2]
+          · simp only [if_true]
+            exact ⟨g1, List.mem_filter.mpr ⟨g2, by simpa using e⟩⟩
+      · -- doneFp: this session's entry goes iff the callback worked; the others' entries are left alone
+        intro n' o' h hto
+        simp only [removeSession_objs, removeSession_efail, removeSession_fp, lookup_insert] at h ⊢
+        by_cases e : n' = n
+        · subst e
+          cases ok
+          · simp only [Bool.false_eq_true, if_false]; rw [count_bump]; simp [f3, f4]
+          · simp only [if_true]
+            refine ⟨fun _ hm => ?_, fun h1 => ?_⟩
+            · have := (List.mem_filter.mp hm).2; simp at this
+            · rw [f3] at h1; cases h1
+        · simp only [e, if_false] at h
+          obtain ⟨g1, g2⟩ := hI.doneFp n' o' h hto
+          cases ok
+          · simp only [Bool.false_eq_true, if_false]; rw [count_bump]; simp only [e, if_false]; exact ⟨g1, g2⟩
+          · simp only [if_true]
+            exact ⟨fun h0 hm => g1 h0 (List.mem_filter.mp hm).1,
+                   fun h1 => List.mem_filter.mpr ⟨g2 h1, by simpa using e⟩⟩
+      · intro n' h
+        simp only [removeSession_objs, removeSession_efail, removeSession_fp, lookup_insert] at h ⊢
+        by_cases e : n' = n
+        · simp [e] at h
+        · simp only [e, if_false] at h
+          obtain ⟨g1, g2⟩ := hI.unusedFp n' h
+          cases ok
+          · simp only [Bool.false_eq_true, if_false]; rw [count_bump]; simp [e, g1, g2]
+          · simp only [if_true]
+            exact ⟨g1, fun hm => g2 (List.mem_filter.mp hm).1⟩
 
 /-- claiming a session (TerminateSession's check-and-mark) and counting its PADT changes nothing the invariant is about -/
 theorem inv_claimPadt {s : TD} (hI : Inv s) {n : Nat} {o : Obj} (ho : AMap.lookup s.objs n = some o) :
     Inv (claimPadt s n o) := by
   unfold claimPadt
-  refine ⟨?_, ?_, ?_, ?_, ?_⟩
+  refine ⟨?_, ?_, ?_, ?_, ?_, ?_, ?_, ?_⟩
   · intro n' o' h hto
     simp only [lookup_insert] at h
     split at h
@@ -271,9 +361,32 @@ theorem inv_claimPadt {s : TD} (hI : Inv s) {n : Nat} {o : Obj} (ho : AMap.looku
       rw [ho] at ho2; simp only [Option.some.injEq] at ho2; subst ho2
       exact ⟨_, rfl, hip⟩
     · exact ⟨o2, ho2, hip⟩
+  · intro n' o' h hto
+    simp only [lookup_insert] at h
+    split at h
+    · rename_i e; subst e
+      simp only [Option.some.injEq] at h; subst h
+      exact hI.freshFp _ o ho hto
+    · exact hI.freshFp n' o' h hto
+  · intro n' o' h hto
+    simp only [lookup_insert] at h
+    split at h
+    · rename_i e; subst e
+      simp only [Option.some.injEq] at h; subst h
+      exact hI.doneFp _ o ho hto
+    · exact hI.doneFp n' o' h hto
+  · intro n' h
+    simp only [lookup_insert] at h
+    split at h
+    · simp at h
+    · exact hI.unusedFp n' h
 
 theorem inv_parked_congr {s : TD} (hI : Inv s) (p : AMap Nat Nat) : Inv { s with parked := p } :=
-  ⟨hI.fresh, hI.done, hI.unused, hI.tbl, hI.heldIp⟩
+  ⟨hI.fresh, hI.done, hI.unused, hI.tbl, hI.heldIp, hI.freshFp, hI.doneFp, hI.unusedFp⟩
+
+/-- arming or disarming the fault changes what the NEXT call of the callback does, nothing that has happened -/
+theorem inv_fault_congr {s : TD} (hI : Inv s) (m : Fault) : Inv { s with fault := m } :=
+  ⟨hI.fresh, hI.done, hI.unused, hI.tbl, hI.heldIp, hI.freshFp, hI.doneFp, hI.unusedFp⟩
 
 theorem inv_terminate {s : TD} (hI : Inv s) (n : Nat) : Inv (terminate s n) := by
   unfold terminate
@@ -342,7 +455,7 @@ theorem inv_step {s : TD} (hI : Inv s) (op : Op) : Inv (step s op) := by
       · simp only [ht, if_true]; exact hI
       · have ht' : o.tornDown = false := by simpa using ht
         simp only [ht', Bool.false_eq_true, if_false]
-        refine ⟨?_, ?_, ?_, ?_, ?_⟩
+        refine ⟨?_, ?_, ?_, ?_, ?_, ?_, ?_, ?_⟩
         · intro n' o' h hto
           simp only [lookup_insert] at h
           split at h
@@ -374,7 +487,23 @@ theorem inv_step {s : TD} (hI : Inv s) (op : Op) : Inv (step s op) := by
             rw [ho] at ho2; simp only [Option.some.injEq] at ho2; subst ho2
             exact ⟨_, rfl, hip⟩
           · exact ⟨o2, ho2, hip⟩
+        · intro n' o' h hto
+          simp only [lookup_insert] at h
+          split at h
+          · rename_i e; subst e; exact hI.freshFp _ o ho ht'
+          · exact hI.freshFp n' o' h hto
+        · intro n' o' h hto
+          simp only [lookup_insert] at h
+          split at h
+          · simp only [Option.some.injEq] at h; subst h; simp at hto
+          · exact hI.doneFp n' o' h hto
+        · intro n' h
+          simp only [lookup_insert] at h
+          split at h
+          · simp at h
+          · exact hI.unusedFp n' h
     · exact hI
+  | fault m => exact inv_fault_congr hI m
 
 theorem inv_run {s : TD} (hI : Inv s) (ops : List Op) : Inv (run s ops) := by
   induction ops generalizing s with
@@ -441,6 +570,7 @@ theorem step_radius (s : TD) (op : Op) : (step s op).radius = s.radius := by
     simp only [step]; split
     · rw [cleanup_radius]
     · rfl
+  | fault m => rfl
 
 theorem run_radius (s : TD) (ops : List Op) : (run s ops).radius = s.radius := by
   induction ops generalizing s with
@@ -454,36 +584,206 @@ theorem run_radius (s : TD) (ops : List Op) : (run s ops).radius = s.radius := b
 /-! ## property theorems -/
 
 /-- **At most one Accounting-Stop and one map removal per session**, whatever sequence of
-    terminations (by any path, repeated any number of times) is applied. -/
+    terminations (by any path, repeated any number of times) is applied and whether or not the eBPF-map callback
+    fails: the callback is CALLED at most once per session (successful and failed calls together). -/
 theorem stop_and_cleanup_at_most_once (radius : Bool) (ops : List Op) (n : Nat) :
-    count (run (init radius) ops).stops n ≤ 1 ∧ count (run (init radius) ops).ebpf n ≤ 1 := by
+    count (run (init radius) ops).stops n ≤ 1 ∧
+    count (run (init radius) ops).ebpf n + count (run (init radius) ops).efail n ≤ 1 := by
   have hI := inv_run (inv_init radius) ops
   generalize run (init radius) ops = s at *
   cases ho : AMap.lookup s.objs n with
-  | none => obtain ⟨a, b, _, _⟩ := hI.unused n ho; omega
+  | none =>
+    obtain ⟨a, b, _, _⟩ := hI.unused n ho
+    obtain ⟨c, _⟩ := hI.unusedFp n ho
+    omega
   | some o =>
     cases ht : o.tornDown with
-    | false => obtain ⟨a, b⟩ := hI.fresh n o ho ht; omega
+    | false =>
+      obtain ⟨a, b⟩ := hI.fresh n o ho ht
+      obtain ⟨c, _⟩ := hI.freshFp n o ho ht
+      omega
     | true =>
       obtain ⟨a, b, _, _⟩ := hI.done n o ho ht
       constructor
       · rw [b]; split <;> omega
       · omega
 
-/-- **A terminated session holds nothing**: after any history, a session that has been torn down has no
-    pool entry, is not in the session table, had its map entry removed exactly once, and exactly one
-    Accounting-Stop was issued iff accounting applies to it (RADIUS configured and the session authenticated). -/
+/-- **A terminated session holds nothing**: after any history — with the eBPF-map callback failing or not — a session
+    that has been torn down has no pool entry, is not in the session table, the eBPF-map callback was called for it
+    exactly once, and exactly one Accounting-Stop was issued iff accounting applies to it (RADIUS configured and the
+    session authenticated).  (Its fast-path entry: `fastpath_entry_removed_partial`.) -/
 theorem terminated_holds_nothing (radius : Bool) (ops : List Op) (n : Nat) (o : Obj)
     (ho : AMap.lookup (run (init radius) ops).objs n = some o) (ht : o.tornDown = true) :
     n ∉ (run (init radius) ops).held ∧
     (∀ id, AMap.lookup (run (init radius) ops).live id ≠ some n) ∧
-    count (run (init radius) ops).ebpf n = 1 ∧
+    count (run (init radius) ops).ebpf n + count (run (init radius) ops).efail n = 1 ∧
     count (run (init radius) ops).stops n = (if radius && o.authed then 1 else 0) := by
   have hI := inv_run (inv_init radius) ops
   have hr : (run (init radius) ops).radius = radius := run_radius _ ops
   obtain ⟨a, b, c, d⟩ := hI.done n o ho ht
   rw [hr] at b
   exact ⟨c, d, a, b⟩
+
+/-- **No fast-path entry still answers for it — partial**: after any history, the fast-path entry of a torn-down
+    session is gone and was removed exactly once, PROVIDED the eBPF-map callback did not return an error when it was
+    called for this session (the negation of the exclusion clause of KF-pppoe-teardown-ebpf-noretry).  Missing for the
+    full statement: a session whose one removal attempt failed — `failed_removal_never_retried`. -/
+theorem fastpath_entry_removed_partial (radius : Bool) (ops : List Op) (n : Nat) (o : Obj)
+    (ho : AMap.lookup (run (init radius) ops).objs n = some o) (ht : o.tornDown = true)
+    (hok : count (run (init radius) ops).efail n = 0) :
+    n ∉ (run (init radius) ops).fp ∧ count (run (init radius) ops).ebpf n = 1 := by
+  have hI := inv_run (inv_init radius) ops
+  obtain ⟨a, _, _, _⟩ := hI.done n o ho ht
+  exact ⟨(hI.doneFp n o ho ht).1 hok, by omega⟩
+
+/-- a session that is still up has its fast-path entry: teardown removes nobody else's entry -/
+theorem live_session_keeps_entry (radius : Bool) (ops : List Op) (n : Nat) (o : Obj)
+    (ho : AMap.lookup (run (init radius) ops).objs n = some o) (ht : o.tornDown = false) :
+    n ∈ (run (init radius) ops).fp :=
+  ((inv_run (inv_init radius) ops).freshFp n o ho ht).2
+
+/-! ### the recorded finding KF-pppoe-teardown-ebpf-noretry: a failed removal is never tried again -/
+
+/-- session `n` is torn down and the one call of the eBPF-map callback for it returned an error -/
+def Stuck (n : Nat) (s : TD) : Prop :=
+  ∃ o, AMap.lookup s.objs n = some o ∧ o.tornDown = true ∧ count s.efail n = 1
+
+theorem stuck_cleanup {n : Nat} {s : TD} (h : Stuck n s) (k : Nat) : Stuck n (cleanup s k) := by
+  obtain ⟨o, ho, ht, hf⟩ := h
+  unfold cleanup
+  split
+  · exact ⟨o, ho, ht, hf⟩
+  · rename_i ok hok
+    split
+    · exact ⟨o, ho, ht, hf⟩
+    · rename_i hk
+      have hne : n ≠ k := by
+        intro e; subst e
+        rw [ho] at hok; simp only [Option.some.injEq] at hok; subst hok
+        exact hk ht
+      refine ⟨o, ?_, ht, ?_⟩
+      · rw [removeSession_objs]; simp only [lookup_insert, hne, if_false]; exact ho
+      · rw [removeSession_efail]
+        show count (if (s.fault == Fault.off) = true then s.efail else bump s.efail k) n = 1
+        split
+        · exact hf
+        · rw [count_bump]; simp only [hne, if_false]; exact hf
+
+theorem stuck_claimPadt {n : Nat} {s : TD} (h : Stuck n s) {k : Nat} {ok : Obj} (hok : AMap.lookup s.objs k = some ok) :
+    Stuck n (claimPadt s k ok) := by
+  obtain ⟨o, ho, ht, hf⟩ := h
+  unfold claimPadt
+  by_cases e : n = k
+  · subst e
+    rw [ho] at hok; simp only [Option.some.injEq] at hok; subst hok
+    exact ⟨{ o with claimed := true }, by simp, ht, hf⟩
+  · exact ⟨o, by simp only [lookup_insert, e, if_false]; exact ho, ht, hf⟩
+
+theorem stuck_terminate {n : Nat} {s : TD} (h : Stuck n s) (k : Nat) : Stuck n (terminate s k) := by
+  unfold terminate
+  split
+  · rename_i ok hok
+    split
+    · exact h
+    · exact stuck_cleanup (stuck_claimPadt h hok) k
+  · exact h
+
+theorem stuck_foldl_terminate {n : Nat} (l : List (Nat × Nat)) : ∀ {s : TD}, Stuck n s →
+    Stuck n (l.foldl (fun st p => terminate st p.2) s) := by
+  induction l with
+  | nil => intro s h; exact h
+  | cons p rest ih => intro s h; exact ih (stuck_terminate h p.2)
+
+theorem stuck_step {n : Nat} {s : TD} (h : Stuck n s) (op : Op) : Stuck n (step s op) := by
+  cases op with
+  | mk k m a i =>
+    obtain ⟨o, ho, ht, hf⟩ := h
+    simp only [step, mk]
+    split
+    · exact ⟨o, ho, ht, hf⟩
+    · rename_i hk
+      have hne : n ≠ k := by intro e; subst e; simp [ho] at hk
+      exact ⟨o, by simp only [lookup_insert, hne, if_false]; exact ho, ht, hf⟩
+  | padt k m =>
+    simp only [step]; split
+    · split
+      · exact stuck_cleanup h k
+      · exact h
+    · exact h
+  | term k => simp only [step]; split
+              · exact stuck_terminate h k
+              · exact h
+  | termId id => simp only [step]; split
+                 · exact stuck_terminate h _
+                 · exact h
+  | termMac m =>
+    simp only [step]; split
+    · split
+      · exact stuck_terminate h _
+      · exact h
+    · exact h
+  | termUser u => exact stuck_foldl_terminate _ h
+  | termAll => exact stuck_foldl_terminate _ h
+  | authFail k =>
+    obtain ⟨o, ho, ht, hf⟩ := h
+    simp only [step]
+    split
+    · rename_i ok hok
+      split
+      · exact ⟨o, ho, ht, hf⟩
+      · rename_i hk
+        have hne : n ≠ k := by
+          intro e; subst e
+          rw [ho] at hok; simp only [Option.some.injEq] at hok; subst hok
+          exact hk ht
+        exact ⟨o, by simp only [lookup_insert, hne, if_false]; exact ho, ht, hf⟩
+    · exact ⟨o, ho, ht, hf⟩
+  | tpark tag k =>
+    simp only [step]; split
+    · exact h
+    · split
+      · rename_i ok hok
+        split
+        · exact h
+        · obtain ⟨o, ho, ht, hf⟩ := stuck_claimPadt h hok
+          exact ⟨o, ho, ht, hf⟩
+      · exact h
+  | tresume tag =>
+    simp only [step]; split
+    · refine stuck_cleanup (s := { s with parked := AMap.erase s.parked tag }) ?_ _
+      obtain ⟨o, ho, ht, hf⟩ := h
+      exact ⟨o, ho, ht, hf⟩
+    · exact h
+  | fault m =>
+    obtain ⟨o, ho, ht, hf⟩ := h
+    exact ⟨o, ho, ht, hf⟩
+
+theorem stuck_run {n : Nat} {s : TD} (h : Stuck n s) (ops : List Op) : Stuck n (run s ops) := by
+  induction ops generalizing s with
+  | nil => exact h
+  | cons op ops ih => exact ih (stuck_step h op)
+
+/-- **The recorded finding, in general**: once the eBPF-map callback has returned an error for a session (its cleanup
+    went on and the session is torn down), NO later history — terminations by any path, repeated, with the callback
+    working again — removes its fast-path entry: the entry is still there and no removal was ever counted.  The code
+    marks the session torn down before it calls the callback, so every later termination returns at the tornDown check. -/
+theorem failed_removal_never_retried (radius : Bool) (ops more : List Op) (n : Nat) (o : Obj)
+    (ho : AMap.lookup (run (init radius) ops).objs n = some o) (ht : o.tornDown = true)
+    (hf : count (run (init radius) ops).efail n = 1) :
+    n ∈ (run (run (init radius) ops) more).fp ∧ count (run (run (init radius) ops) more).ebpf n = 0 := by
+  have hI : Inv (run (run (init radius) ops) more) := inv_run (inv_run (inv_init radius) ops) more
+  obtain ⟨o', ho', ht', hf'⟩ := stuck_run (n := n) ⟨o, ho, ht, hf⟩ more
+  obtain ⟨a, _, _, _⟩ := hI.done n o' ho' ht'
+  exact ⟨(hI.doneFp n o' ho' ht').2 hf', by omega⟩
+
+/-- **The recorded finding, witnessed**: a client PADT while the callback fails tears the session down (address back,
+    session gone, one Accounting-Stop) but leaves its fast-path entry; the callback works again, and termination by
+    every other path changes nothing: the entry still answers for the ended session. -/
+theorem ebpf_noretry_witness :
+    let s := run (init true) [.mk 1 1 true true, .fault .on, .padt 1 1, .fault .off,
+                              .term 1, .termMac 1, .termId 1, .termUser 1, .termAll, .padt 1 1]
+    s.fp = [1] ∧ count s.ebpf 1 = 0 ∧ count s.efail 1 = 1 ∧ s.held = [] ∧ s.live = [] ∧ count s.stops 1 = 1 := by
+  decide
 
 theorem cleanup_tears_down (s : TD) (n : Nat) (o : Obj) (ho : AMap.lookup s.objs n = some o) :
     ∃ o', AMap.lookup (cleanup s n).objs n = some o' ∧ o'.tornDown = true := by
@@ -735,6 +1035,7 @@ theorem pinv_step {s : TD} (h : PInv s) (op : Op) : PInv (step s op) := by
     · have h' : PInv { s with parked := AMap.erase s.parked tag } := pinv_congr h rfl (fun _ => Iff.rfl)
       exact pinv_cleanup h' _
     · exact h
+  | fault m => exact pinv_congr h rfl (fun _ => Iff.rfl)
 
 theorem pinv_run {s : TD} (h : PInv s) (ops : List Op) : PInv (run s ops) := by
   induction ops generalizing s with
@@ -763,5 +1064,11 @@ example : let s := run (init true) [.mk 1 1 true true, .tpark 0 1, .term 1, .pad
     count s.padt 1 = 1 ∧ count s.stops 1 = 1 ∧ count s.ebpf 1 = 1 ∧ s.held = [] ∧ s.live = [] := by decide
 example : (AMap.lookup (run (init true) [.mk 1 1 true true, .tpark 0 1]).objs 1).map (·.claimed) = some true := by
   decide
+
+/-! non-vacuity of `fastpath_entry_removed_partial` (a torn-down session whose callback worked, next to one whose
+    callback failed) and of `failed_removal_never_retried` (hypotheses hold after `fault once; termAll`) -/
+example : let s := run (init false) [.mk 1 1 true true, .mk 2 2 true true, .fault .once, .term 1, .term 2]
+    (AMap.lookup s.objs 2).map (·.tornDown) = some true ∧ count s.efail 2 = 0 ∧ s.fp = [1] ∧ count s.ebpf 2 = 1 ∧
+    (AMap.lookup s.objs 1).map (·.tornDown) = some true ∧ count s.efail 1 = 1 := by decide
 
 end Bng.Spec.C16Teardown
